@@ -37,14 +37,15 @@ void aws_fatal_assert(const char *cond_str, const char *file, int line) {
 #include "source/posix/time.c"
 
 /* ------------------------------------------------------------------------------------------------------------------
- * text generator: an input object of EXACTLY g_len bytes, filled left to right */
-static uint8_t g_txt[AWS_DATE_TIME_STR_MAX_LEN + 28]; /* room for the longest fixed part behind a 100-byte run */
-static size_t g_p;
-struct txt_any { uint8_t b[AWS_DATE_TIME_STR_MAX_LEN + 28]; };
+ * text generator: the text is written left to right into a fixed array; the cursor handed to the library covers exactly
+ * the bytes written (what lies behind them is arbitrary, so a parser that read past the end would see arbitrary bytes) */
+struct txt_any { uint8_t b[AWS_DATE_TIME_STR_MAX_LEN + 28]; }; /* room for the longest fixed part behind a 100-byte run */
 struct txt_any nondet_txt(void);
+static struct txt_any g_text;
+#define g_txt (g_text.b)
+static size_t g_p;
 static void gen_begin(void) {
-    struct txt_any any = nondet_txt(); /* bytes behind the text are arbitrary */
-    for (size_t i = 0; i < sizeof(g_txt); ++i) g_txt[i] = any.b[i];
+    g_text = nondet_txt(); /* bytes behind the text are arbitrary */
     g_p = 0;
 }
 static void put(uint8_t c) { g_txt[g_p++] = c; }
@@ -91,45 +92,37 @@ static int e_year, e_mon, e_mday, e_hour, e_min, e_sec; /* expected tm fields */
 static time_t e_off;                                    /* expected offset in seconds */
 static bool e_date_only;
 
-#ifndef GEN_FRAC
-#define GEN_FRAC nondet_bool()
-#endif
-#ifndef GEN_ZONE_Z
-#define GEN_ZONE_Z nondet_bool()
-#endif
-static void gen_iso(bool dsep, bool tsep) {
+/* frac_lo..frac_hi: range of the number of fraction digits (0: no fraction mark at all); the other layout choices are
+ * symbolic.  The family is split over several units by this range only to keep each SAT instance small. */
+static void gen_iso(size_t frac_lo, size_t frac_hi) {
     e_hour = e_min = e_sec = 0;
     e_off = 0;
     e_year = put_4digits() - 1900;
+    bool dsep = nondet_bool();
     if (dsep) put('-');
     e_mon = put_2digits() - 1;
     if (dsep) put('-');
     e_mday = put_2digits();
-    e_date_only = nondet_bool();
+    e_date_only = frac_lo == 0 && nondet_bool();
     if (e_date_only) return;
     uint8_t t = nondet_u8();
     __CPROVER_assume(t == 'T' || t == 't' || t == ' ');
     put(t);
+    bool tsep = nondet_bool();
     e_hour = put_2digits();
     if (tsep) put(':');
     e_min = put_2digits();
     if (tsep) put(':');
     e_sec = put_2digits();
-    if (GEN_FRAC) { /* fraction: mark and one or more digits (as many as fit into 100 bytes) */
-        put(nondet_bool() ? '.' : ',');
-#ifdef NF
-        size_t nfrac = NF;
-#else
+    if (frac_hi > 0) { /* fraction: mark and frac_lo..frac_hi digits */
         size_t nfrac = nondet_size_t();
-#endif
-#ifndef MAXFRAC
-#define MAXFRAC AWS_DATE_TIME_STR_MAX_LEN
-#endif
-        __CPROVER_assume(nfrac >= 1 && nfrac <= MAXFRAC);
-        for (size_t i = 0; i < nfrac; ++i) put_digit();
-        g_j = nfrac + 1; /* witness position handed to the helper contracts: the byte behind the fraction */
+        __CPROVER_assume(nfrac >= frac_lo && nfrac <= frac_hi);
+        if (nfrac > 0) {
+            put(nondet_bool() ? '.' : ',');
+            for (size_t i = 0; i < nfrac; ++i) put_digit();
+        }
     }
-    if (GEN_ZONE_Z) {
+    if (nondet_bool()) {
         put(nondet_bool() ? 'Z' : 'z');
     } else {
         bool neg = nondet_bool();
@@ -142,10 +135,10 @@ static void gen_iso(bool dsep, bool tsep) {
     }
 }
 
-static void check_iso(enum aws_date_format fmt, bool dsep, bool tsep) {
+static void check_iso(enum aws_date_format fmt, size_t frac_lo, size_t frac_hi) {
     reset_models();
     gen_begin();
-    gen_iso(dsep, tsep);
+    gen_iso(frac_lo, frac_hi);
     struct aws_byte_cursor cur = gen_end();
     struct aws_date_time dt;
     int rc = aws_date_time_init_from_str_cursor(&dt, &cur, fmt);
@@ -164,17 +157,18 @@ static void check_iso(enum aws_date_format fmt, bool dsep, bool tsep) {
     else if (e_off > 0) CANARY("ISO positive offset");
     else if (e_off < 0) CANARY("ISO negative offset");
     else CANARY("ISO Z or zero offset");
-    if (g_p == AWS_DATE_TIME_STR_MAX_LEN) CANARY("ISO 100 bytes (long fraction)");
+    if (frac_hi > 0 && g_p >= 22 + frac_hi) CANARY("ISO longest fraction of the range");
 }
-/* the format selector is a constant per harness (three units) */
-#ifdef ONE_SEP
-#define ISO_ALL_SEPARATOR_CHOICES(fmt) do { check_iso(fmt, true, true); } while (0)
-#else
-#define ISO_ALL_SEPARATOR_CHOICES(fmt) do { check_iso(fmt, false, false); check_iso(fmt, true, false); check_iso(fmt, false, true); check_iso(fmt, true, true); } while (0)
+/* the format selector is a constant per harness */
+void h_iso_ext(void) { check_iso(AWS_DATE_FORMAT_ISO_8601, 0, 0); }
+void h_iso_basic(void) { check_iso(AWS_DATE_FORMAT_ISO_8601_BASIC, 0, 0); }
+void h_iso_auto(void) { check_iso(AWS_DATE_FORMAT_AUTO_DETECT, 0, 0); }
+#ifndef FRAC_LO
+#define FRAC_LO 1
+#define FRAC_HI 9
 #endif
-void h_iso_ext(void) { ISO_ALL_SEPARATOR_CHOICES(AWS_DATE_FORMAT_ISO_8601); }
-void h_iso_basic(void) { ISO_ALL_SEPARATOR_CHOICES(AWS_DATE_FORMAT_ISO_8601_BASIC); }
-void h_iso_auto(void) { ISO_ALL_SEPARATOR_CHOICES(AWS_DATE_FORMAT_AUTO_DETECT); }
+void h_iso_ext_frac(void) { check_iso(AWS_DATE_FORMAT_ISO_8601, FRAC_LO, FRAC_HI); }
+void h_iso_auto_frac(void) { check_iso(AWS_DATE_FORMAT_AUTO_DETECT, FRAC_LO, FRAC_HI); }
 
 /* ================================================================== RFC 822 ========================================
  * layout family:  [Www] ',' SP  D[D] SP Mon[letters] SP (YYYY|YY) SP hh:mm:ss SP [zone]
@@ -394,7 +388,7 @@ void h_to_local_short_str(void) { check_to_str(3); }
 void h_init_from_str(void) {
     reset_models();
     gen_begin();
-    gen_iso(nondet_bool(), nondet_bool());
+    gen_iso(0, 3);
     struct aws_byte_cursor cur = gen_end();
     struct aws_byte_buf b;
     b.buffer = cur.ptr;
